@@ -18,6 +18,18 @@ pub assume_specification<T: Ord, A: Allocator>[ BinaryHeap::<T, A>::pop ](h: &mu
         r.is_none() ==> hview(old(h)).len() == 0 && hview(final(h)) == hview(old(h)),
         r.is_some() ==> hview(old(h)).count(r.unwrap()) > 0 && hview(final(h)) == hview(old(h)).remove(r.unwrap())
             && (T::obeys_cmp_spec() ==> forall|y: T| hview(old(h)).count(y) > 0 ==> (#[trigger] y.cmp_spec(&r.unwrap())) != Ordering::Greater);
+// peek returns a reference to a greatest element and leaves the heap unchanged (std states peek without an
+// Ord bound, so the ordering fact is a separate axiom over the uninterpreted is_top)
+pub uninterp spec fn is_top<T, A: Allocator>(h: &BinaryHeap<T, A>, x: T) -> bool;
+pub assume_specification<'a, T, A: Allocator>[ BinaryHeap::<T, A>::peek ](h: &'a BinaryHeap<T, A>) -> (r: Option<&'a T>)
+    ensures
+        r.is_none() ==> hview(h).len() == 0,
+        r.is_some() ==> hview(h).count(*r.unwrap()) > 0 && is_top(h, *r.unwrap());
+#[verifier::external_body]
+pub proof fn axiom_heap_top<T: Ord, A: Allocator>(h: &BinaryHeap<T, A>, x: T)
+    requires is_top(h, x), T::obeys_cmp_spec()
+    ensures forall|y: T| hview(h).count(y) > 0 ==> (#[trigger] y.cmp_spec(&x)) != Ordering::Greater
+{}
 
 // std::cmp::Reverse re-declared with its std definition (Verus cannot give a foreign type an
 // ordering spec); the comparison impls below are verified, not assumed
@@ -26,6 +38,9 @@ impl<T: PartialEq> PartialEq for Reverse<T> {
     fn eq(&self, other: &Self) -> (r: bool) { other.0 == self.0 }
 }
 impl<T: Eq> Eq for Reverse<T> {}
+impl<T: Clone> Clone for Reverse<T> {
+    fn clone(&self) -> (r: Self) ensures cloned(self.0, r.0) { Reverse(self.0.clone()) }
+}
 impl<T: PartialOrd> PartialOrd for Reverse<T> {
     fn partial_cmp(&self, other: &Self) -> (r: Option<Ordering>) { other.0.partial_cmp(&self.0) }
 }
